@@ -238,6 +238,7 @@ func init() {
 				}
 			}
 			fp := fingerprint(v)
+			tyPrint := fmt.Sprintf("%#v", ty)
 			type res struct {
 				v   cty.Value
 				err error
@@ -264,6 +265,14 @@ func init() {
 			}
 			if got := fingerprint(v); got != fp {
 				return facet.Failf("argument-changed", "Convert changed its input: was %s now %s", fp, got)
+			}
+			// the requested type is a value too: it must read the same afterwards,
+			// and still be the type its specification describes
+			if got := fmt.Sprintf("%#v", ty); got != tyPrint {
+				return facet.Failf("type-changed", "Convert(%#v, %s) changed the type it was given: was %s now %s", v, in.Target, tyPrint, got)
+			}
+			if !ty.Equals(in.Target.Cty()) || !spec.FromCty(ty).Equal(in.Target) {
+				return facet.Failf("type-changed", "after Convert(%#v, ...) the requested type %s is no longer equal to a fresh build of its specification (now %s)", v, in.Target, spec.FromCty(ty))
 			}
 			if first.err == nil && !first.p && len(in.V.Elems) > 0 {
 				c.NonTrivial()
